@@ -124,7 +124,7 @@ def dom_forms(n):
     elif n % 10 == 3 and n != 13:
         suf = "rd"
     return ["{}.".format(n), "{}{}".format(n, suf), "the {}{}".format(n, suf), "am {}.".format(n),
-            "on the {}{}".format(n, suf), "{:02d}.".format(n), "den {}.".format(n)]
+            "on the {}{}".format(n, suf), "{:02d}.".format(n), "den {}.".format(n), "{}ter".format(n)]
     # not listed: German '5ten'/'20sten' - '<n>ten' also reads as '<n> ten (o'clock)' by the
     # library's own patterns (competing reading, genuinely ambiguous in a bilingual pattern set)
 
